@@ -16,7 +16,7 @@ import time
 
 ROOT = os.path.dirname(os.path.dirname(os.path.abspath(__file__)))
 MAIN_REPO = "/repo"
-REPO = "/tmp/seedtest_repo"      # scratch worktree of /repo: the patches are never applied to /repo itself
+REPO = f"/tmp/seedtest_repo_{os.getpid()}"      # own scratch worktree of /repo per run: the patches are never applied to /repo itself
 
 
 def sh(cmd, cwd=None, env=None, timeout=3000):
@@ -73,7 +73,7 @@ def main():
                 rc, out = sh(f"./check {cp} --tier {tier}", cwd=ROOT,
                              env=dict(os.environ, VERIF_SEED=os.environ.get("VERIF_SEED", "0"),
                                       VERIF_REPO=REPO,
-                                      VERIF_EVIDENCE_DIR="/tmp/seedtest_evidence", VERIF_REPLAY_DIR=os.path.join(d, "replays")))
+                                      VERIF_EVIDENCE_DIR=f"/tmp/seedtest_evidence_{os.getpid()}", VERIF_REPLAY_DIR=os.path.join(d, "replays")))
                 res["check_rc"][cp] = rc
                 vl = [line for line in out.splitlines() if line.startswith("VIOLATION")]
                 res["violation_lines"] += vl[:3]
@@ -88,8 +88,11 @@ def main():
               f"rc={res.get('check_rc')} {res.get('check_wall_s')}s "
               + (f"demo {res.get('demo_clean_rc')}->{res.get('demo_patched_rc')} baseline_green={res.get('baseline_green')}" if validate else "")
               + (" ERROR " + res["error"] if "error" in res else ""))
-        json.dump(results, open(respath, "w"), indent=1)
+        merged = json.load(open(respath)) if os.path.exists(respath) else {}      # another run may have written meanwhile
+        merged[name] = res
+        json.dump(merged, open(respath, "w"), indent=1)
     sh(f"git -C {MAIN_REPO} worktree remove --force {REPO}")
+    sh(f"rm -rf /tmp/seedtest_evidence_{os.getpid()}")
     return 0
 
 
